@@ -26,7 +26,7 @@ pub struct Hostile {
 
 pub const CLASSES: &[&str] = &[
     "consensus:garbage", "consensus:truncated", "consensus:trailing", "consensus:signer-out-of-range", "consensus:slot-bounds", "consensus:far-future-byz-votes", "consensus:cert-bad-bitmask", "consensus:cert-sub-threshold",
-    "shred:parent-same-or-later-slot", "shred:first-slice-no-parent", "shred:parent-switched-twice", "shred:parent-switched-to-itself", "shred:undecodable-tx-data", "shred:zero-size-shards", "shred:odd-size-shards",
+    "shred:parent-same-or-later-slot", "shred:first-slice-no-parent", "shred:parent-switched-twice", "shred:parent-switched-to-itself", "shred:switched-parent-same-or-later-slot", "shred:undecodable-tx-data", "shred:zero-size-shards", "shred:odd-size-shards",
     "shred:oversize-shards", "shred:mismatched-shard-sizes", "shred:tag-contradicts-index", "shred:contradictory-last-flags", "shred:slice-beyond-last", "shred:many-slices", "shred:far-future-slot", "shred:garbage",
     "repair-request:unknown-sender", "repair-request:unknown-block", "repair-request:every-index", "repair-request:garbage",
     "repair-response:unsolicited", "repair-response:garbage", "repair-response:wrong-variant",
@@ -163,6 +163,12 @@ pub fn generate(rng: &mut SRng, h: &HostileCtx, class: &'static str) -> Vec<Host
                 }
                 "shred:parent-switched-twice" => {
                     let b = build_block(&h.ep.sks[bz], slot, &[ok_slice(Some(parent), false), ok_slice(Some((parent.0, [5; 32])), false), ok_slice(Some((parent.0, [6; 32])), true)]);
+                    datagrams.extend(b.bytes.into_iter().flatten());
+                }
+                "shred:switched-parent-same-or-later-slot" => {
+                    // valid first parent, then a single switch to a block of this very slot (or a later one)
+                    let p2 = (slot + *[0u64, 0, 1, 5].choose(rng).unwrap(), blk_hash);
+                    let b = build_block(&h.ep.sks[bz], slot, &[ok_slice(Some(parent), false), ok_slice(Some(p2), true)]);
                     datagrams.extend(b.bytes.into_iter().flatten());
                 }
                 "shred:parent-switched-to-itself" => {
